@@ -796,3 +796,75 @@ def _machine_replay(m, ob):
 
 for _fn in ('run', 'run_task', 'stop_task'):
     BUILDERS['Machine.' + _fn] = _machine_replay
+
+
+class _FakeCluster:
+    """what BatchProcessing._max_resource_provision reads of a cluster: len(cluster) and get_available_resources()"""
+    def __init__(self, total, avail):
+        self.total, self.avail = total, avail
+
+    def __len__(self):
+        return self.total
+
+    def get_available_resources(self):
+        return list(range(self.avail))
+
+
+@builder('BatchProcessing._max_resource_provision')
+def _mrp_replay(m, ob):
+    """the number of machines a batch reservation asks for: never more than are free; without a per-observation split
+    min(free, floor(machines / partitions)); with one: nothing if fewer than its minimum are free, else min(free, its maximum)"""
+    import itertools
+    from topsim.user.schedule.batch_allocation import BatchProcessing
+    bad, n = [], 0
+
+    class P:
+        id = 'obs'
+    for total, parts in itertools.product(range(1, 9), (1, 2, 3)):
+        for avail in range(0, total + 1):
+            alg = BatchProcessing(max_resource_partitions=parts, min_resources_per_workflow=1)
+            n += 1
+            got = alg._max_resource_provision(_FakeCluster(total, avail), P())
+            want = 0 if avail == 0 else min(avail, total // parts)
+            if got != want:
+                bad.append(f"{total} machines, {avail} free, {parts} partitions: asks for {got}, the statement gives {want}")
+            for mn, mx in ((1, 2), (2, 4), (3, 3), (0, 5)):
+                if mn > total:
+                    continue
+                alg = BatchProcessing(max_resource_partitions=parts, min_resources_per_workflow=1, resource_split={'obs': (mn, mx)})
+                n += 1
+                got = alg._max_resource_provision(_FakeCluster(total, avail), P())
+                want = 0 if (avail == 0 or avail < mn) else min(avail, mx)
+                if got != want:
+                    bad.append(f"{total} machines, {avail} free, split (min {mn}, max {mx}): asks for {got}, the statement gives {want}")
+    return dict(violated=bool(bad), bounded=True, scope=f"{n} cases", failures=len(bad), observed=bad[:5])
+
+
+@builder('Cluster.is_idle')
+def _cluster_idle(m, ob):
+    import itertools
+    from topsim.core.cluster import Cluster
+    bad, n = [], 0
+    for run, wait, occ, ing in itertools.product((0, 1, 2), (0, 1), (0, 1, 2), (0, 1, 2)):
+        c = {'tasks': {'running': ['t'] * run, 'waiting': ['w'] * wait, 'finished': {}},
+             'resources': {'occupied': ['m'] * occ, 'ingest': ['i'] * ing, 'available': [], 'idle': {}}}
+        cl = _stub(Cluster, _clusters={'default': c}, env=simple_env(0))
+        n += 1
+        got = bool(cl.is_idle())
+        want = run == 0 and wait == 0 and occ == 0 and ing == 0
+        if got != want:
+            bad.append(f"{run} running, {wait} waiting, {occ} occupied, {ing} on ingest: is_idle={got}, the statement gives {want}")
+    return dict(violated=bool(bad), bounded=True, scope=f"{n} cases", failures=len(bad), observed=bad[:5])
+
+
+@builder('Scheduler.is_idle')
+def _sched_idle(m, ob):
+    from topsim.core.scheduler import Scheduler
+    bad, n = [], 0
+    for q in range(0, 4):
+        s = _stub(Scheduler, observation_queue=['o'] * q, env=simple_env(0))
+        n += 1
+        got = bool(s.is_idle())
+        if got != (q == 0):
+            bad.append(f"{q} observations queued: is_idle={got}, the statement gives {q == 0}")
+    return dict(violated=bool(bad), bounded=True, scope=f"{n} cases", failures=len(bad), observed=bad[:5])
